@@ -2397,6 +2397,17 @@ def h_index(ev, args, kwargs, fr, node):
     ev.unsupported(f"operator.index of {x!r}", node, fr)
 
 
+def np_scalar(expr, name="int64"):
+    """A NumPy scalar (numpy.int64(3), an element taken out of an integer array, the result of NumPy arithmetic)."""
+    return Num(sp.sympify(expr), kind="number", dtype=ExtV("numpy." + name), tag="npscalar")
+
+
+def np_scalar_kind(v):
+    if isinstance(v, Num) and v.tag == "npscalar" and isinstance(v.dtype, ExtV) and v.dtype.dotted.startswith("numpy."):
+        return v.dtype.dotted[len("numpy."):]
+    return None
+
+
 def h_isinstance(ev, args, kwargs, fr, node):
     v, t = args
     from .symeval import PhiV
@@ -2407,13 +2418,13 @@ def h_isinstance(ev, args, kwargs, fr, node):
             return a_
         return ev.ite(v.cond, a_, b_)
     ts = t.items if isinstance(t, TupleV) else [t]
-    res = False
-    for c in ts:
-        r = _isinst(ev, v, c, fr, node)
+    rs = [(c, _isinst(ev, v, c, fr, node)) for c in ts]
+    if any(r is True for _, r in rs):
+        return BoolV(True)
+    for c, r in rs:
         if r is None:
             ev.unsupported(f"isinstance({v!r}, {c!r})", node, fr)
-        res = res or r
-    return BoolV(res)
+    return BoolV(False)
 
 
 def _isinst(ev, v, c, fr, node):
@@ -2438,6 +2449,34 @@ def _isinst(ev, v, c, fr, node):
             return isinstance(v, StrV)
         if d == "builtins.bool":
             return isinstance(v, BoolV)
+        npk = np_scalar_kind(v)
+        if npk is not None:
+            # a NumPy scalar: numpy.float64 alone derives from a Python number type (float); numpy integers are
+            # numbers.Integral and numpy.integer but not int, the narrower and wider floats are not float
+            fam = "int" if npk.startswith(("int", "uint")) else ("float" if npk.startswith(("float", "longdouble")) else "other")
+            if d in ("builtins.int", "builtins.bool", "builtins.complex"):
+                return False
+            if d == "builtins.float":
+                return npk == "float64"
+            if d in ("numbers.Integral", "numpy.integer"):
+                return fam == "int"
+            if d in ("numpy.floating",):
+                return fam == "float"
+            if d in ("numbers.Real", "numbers.Number", "numpy.number", "numpy.generic"):
+                return fam in ("int", "float")
+        if d in ("numpy.integer", "numpy.floating", "numpy.number", "numpy.generic", "numpy.bool_"):
+            # Python numbers, None, strings, containers and the package's own objects are not NumPy scalars
+            if isinstance(v, (NoneV, BoolV, StrV, TupleV, ListV, DictV, SliceV, ObjV)):
+                return False
+            if isinstance(v, Num) and v.kind == "number" and not v.shape and v.dtype is None and v.tag is None:
+                return False
+        if d in ("numbers.Integral", "numbers.Real", "numbers.Number"):
+            if isinstance(v, (NoneV, StrV, TupleV, ListV, DictV, SliceV, ObjV)):
+                return False
+            if isinstance(v, BoolV):
+                return True
+            if isinstance(v, Num) and v.kind == "number" and not v.shape and v.dtype is None and v.tag is None:
+                return True if d != "numbers.Integral" else (True if v.expr.is_integer is True else (False if v.expr.is_integer is False else None))
         if d == "builtins.int":
             return isinstance(v, BoolV) or (isinstance(v, Num) and v.kind == "number" and v.expr.is_integer is True and not v.shape)
         if d == "builtins.float":
@@ -2497,6 +2536,10 @@ def h_type(ev, args, kwargs, fr, node):
         return ExtV("builtins.str")
     if isinstance(x, Num) and x.cls is not None:
         return ClassV(x.cls)
+    if np_scalar_kind(x) is not None:
+        return x.dtype
+    if isinstance(x, Num) and x.kind == "number" and not x.shape and x.dtype is None and x.expr.is_integer is not None:
+        return ExtV("builtins.int" if x.expr.is_integer else "builtins.float")
     if isinstance(x, Num):
         return ExtV("type:" + x.kind)
     if isinstance(x, (NdArr, StackV)):
